@@ -325,6 +325,8 @@ pub fn find_location<T: PartialEq<U>, U>(tokens: &[Rc<T>], rule_tokens: &[Rc<U>]
     let mut start_token_index  = 0;
 
     while let Some(token) = tokens.get(target_token_index) {
+        #[cfg(feature = "verif")]
+        crate::verif::tick("find_location");
         if token.deref() == rule_tokens[rule_token_index].deref() {
             rule_token_index   += 1;
             target_token_index += 1;
